@@ -63,11 +63,11 @@ PROPS = {
     },
     "C18": {
         "functions": ["Role::{input_streams,next_input_stream,output_streams}", "cmp_input_streams", "stream::Parser::{set_stream,active_stream,discard_stream}", "stream::Parser::parse_head", "stream::Parser::parse_payload"],
-        "bounds": "role tables: complete finite tables; set_stream: 24-byte buffer with symbolic contents and every geometry, every role / current selection / State / payload_rem / padding_rem, requested selection None|Stdin|Data, two consecutive calls; delivery: parse_head for every 8-byte header from every record-boundary state, parse_payload from every state (delivery only in State::Stream)",
-        "outside": "requested selections that are not input-stream record types (set_stream(Some(Stdout)) hits a debug assertion in cmp_input_streams in debug builds and returns Err in release builds; not part of the claim); buffers larger than 24 bytes; the panic of async Request::set_stream on rejection is a one-line expect() and not separately checked",
+        "bounds": "role tables: complete finite tables; set_stream: 24-byte buffer with symbolic contents and every geometry, every role / current selection / State / payload_rem / padding_rem, requested selection None or any of the 11 record types, two consecutive calls; delivery: parse_head for every 8-byte header from every record-boundary state, parse_payload from every state (delivery only in State::Stream)",
+        "outside": "buffers larger than 24 bytes; the panic of async Request::set_stream on rejection is a one-line expect() and not separately checked",
         "assumptions": [E2],
         "level_text": "Bounded model checking: the finite order tables are decided completely; set_stream and the header dispatch are one-step lemmas from an ARBITRARY parser state (all private fields symbolic under the representation invariant), so they hold after every history of calls.",
-        "level_note": "State is constructed directly through the private fields (harness module is a child of parser::stream).",
+        "level_note": "State is constructed directly through the private fields (harness module is a child of parser::stream). A genuine defect (debug-assertion panic for non-stream record types) was found by this check and repaired in /repo ccaa05e.",
     },
     "C02": {
         "functions": ["stream::Parser::{compress,consume_stream,discard_stream,consume_output,output_buffer,stream_buffer,input_buffer}", "stream::Parser::parse_payload (Stream/Skip/Values)", "stream::Parser::parse_head", "stream::Parser::parse (loop glue)"],
